@@ -13,7 +13,7 @@ func checkC03(cx *Ctx, r *Report) {
 	w, fx := cx.W, cx.Fx
 	r.Clauses = []string{
 		"wiring at the callback (unchanged copies): InResponseTo on the response and in the subject confirmation <- GetAuthRequestID(); Destination, Recipient <- GetAccessConsumerServiceURL(); response and assertion Issuer <- the IdP entity ID; Audience <- the result of GetEntityIDByAppID(ctx, GetApplicationID()); subject NameID text <- the user name storage set; attribute names, name formats, friendly names and values <- exactly what storage set through the AttributeSetter (or the fixed standard names); RelayState in the form and in the redirect query <- GetRelayState(); user lookup by GetApplicationID() / GetUserID() of the same request, into the same Attributes object the response is built from",
-		"nothing dropped or added: GetSAML appends every custom attribute unconditionally and a standard attribute exactly when its value is non-empty",
+		"nothing dropped or added: GetSAML appends every custom attribute unconditionally and a standard attribute exactly when its value is non-empty; an assertion is built only on paths where the storage call that fills in the user's data returned a nil error (no partially filled record is asserted)",
 		"validity window: IssueInstant, NotBefore and AuthnInstant are Format(now.UTC()) and both NotOnOrAfter are Format(now.UTC().Add(Expiration)) of one time.Now() value, with the configured time format and lifetime",
 		"IDs: response and assertion Id come from two distinct NewID() calls; NewID is a constant NCName-start prefix plus uuid.New()",
 	}
@@ -117,6 +117,7 @@ func checkC03(cx *Ctx, r *Report) {
 
 	// --- GetSAML: nothing dropped -----------------------------------------------------------------------
 	cx.checkGetSAML(r)
+	cx.checkUserDataComplete(r)
 
 	// --- validity window ---------------------------------------------------------------------------------
 	now := "ext:time.Now#0"
@@ -231,4 +232,81 @@ func (cx *Ctx) checkGetSAML(r *Report) {
 		}
 	}
 	r.Check(nStd == 6 && nCustom >= 1, "R-GUARD", "GetSAML:#appends", w.FnPos(fn), "six standard attributes and the custom-attribute loop", fmt.Sprintf("%d standard and %d loop append sites found (expected 6 and at least 1)", nStd, nCustom))
+}
+
+// checkUserDataComplete: every use of the Attributes object for building the answer (GetSAML / GetNameID and the
+// Success constructor) in the function that asks storage for the user's data happens on paths where that storage
+// call's error was found nil: a lookup that failed half way leaves a partial record, which is not "exactly U's data".
+func (cx *Ctx) checkUserDataComplete(r *Report) {
+	w, fx := cx.W, cx.Fx
+	n := 0
+	for _, fn := range w.sortedFuncs(cx.handlerScope()) {
+		for _, c := range callsIn(fn) {
+			m := storageMethod(c)
+			if m != "SetUserinfoWithUserID" && m != "SetUserinfoWithLoginName" {
+				continue
+			}
+			call, ok := c.(*ssa.Call)
+			if !ok {
+				continue
+			}
+			e, has, _ := errResult(call)
+			if !has || e == nil {
+				r.Fail("R-GUARD", "user-data-complete:"+m, w.InstrPos(c), "the error of "+m+" is discarded")
+				continue
+			}
+			n++
+			al := fx.aliasesOf(e)
+			// a chain step: the error is returned to the checker (C20 stops the chain) - judged by propagation rules
+			if fn.Parent() != nil && fx.isReturned(e) {
+				r.Ok("R-GUARD", "user-data-complete:"+m+"@"+w.FuncKey(fn), w.InstrPos(c), "the step returns the storage error to the chain")
+				continue
+			}
+			aps, okp := fx.atomPaths(fn, 4096)
+			if !okp {
+				r.Undecided("R-GUARD", "user-data-complete:"+m, w.FnPos(fn), "too many paths")
+				continue
+			}
+			bad := ""
+			for i := range aps {
+				p := &aps[i]
+				through, uses := false, false
+				for _, in := range p.Instrs() {
+					if in == ssa.Instruction(call) {
+						through = true
+						continue
+					}
+					if !through {
+						continue
+					}
+					if c2, isC := in.(ssa.CallInstruction); isC {
+						if f := calleeOf(c2); f != nil {
+							switch w.FuncKey(f) {
+							case "provider.(*Attributes).GetSAML", "provider.(*Attributes).GetNameID", "provider.(*Response).makeSuccessfulResponse", "provider.makeAttributeQueryResponse":
+								uses = true
+							}
+						}
+					}
+				}
+				if !uses {
+					continue
+				}
+				okNil := false
+				for _, cp := range p.Conds {
+					if x, tnn, isNT := nilTest(cp.Cond); isNT && cp.Pol != tnn {
+						for _, a := range al {
+							if a == x {
+								okNil = true
+							}
+						}
+					}
+				}
+				if !okNil {
+					bad = "the user's attributes are used for the answer on a path where the error of " + m + " was not found nil (" + atomsStringT(p.Atoms) + ")"
+				}
+			}
+			r.Check(bad == "", "R-GUARD", "user-data-complete:"+m+"@"+w.FuncKey(fn), w.InstrPos(c), "the answer is built from the user's record only after the lookup returned nil", bad)
+		}
+	}
+	r.Check(n > 0, "R-GUARD", "user-data-complete:#lookups", "", fmt.Sprintf("%d user lookup site(s)", n), "no user lookup found in handler-reachable code")
 }
